@@ -80,4 +80,46 @@ Lemma fsum_repeat_zero n : fsum O (repeat 0 n) = 0.
 Proof. induction n as [|n IH]; cbn [repeat]; rewrite ?fsum_nil, ?fsum_cons, ?IH; ring. Qed.
 
 
+(* a sum over 0..n-1 with a single selected index *)
+Lemma fsum_indicator_from (k m j : nat) (v : F) :
+  fsum O (map (fun s => if Nat.eqb j s then v else 0) (seq k m))
+  = if (k <=? j) && (j <? k + m) then v else 0.
+Proof.
+  revert k; induction m as [|m IH]; intro k; cbn [seq map].
+  - rewrite fsum_nil. destruct (k <=? j) eqn:E1; cbn [andb]; [|reflexivity].
+    destruct (Nat.ltb_spec j (k + 0)); [apply Nat.leb_le in E1; lia|reflexivity].
+  - rewrite fsum_cons, IH. destruct (Nat.eqb_spec j k) as [->|Hne].
+    + assert (S k <=? k = false) as -> by (apply Nat.leb_gt; lia). cbn [andb].
+      rewrite Nat.leb_refl. assert (k <? k + S m = true) as -> by (apply Nat.ltb_lt; lia). cbn [andb]. ring.
+    + destruct (Nat.leb_spec (S k) j), (Nat.leb_spec k j); try lia; cbn [andb].
+      * destruct (Nat.ltb_spec j (S k + m)), (Nat.ltb_spec j (k + S m)); try lia; ring.
+      * ring.
+Qed.
+
+Lemma fsum_indicator (n j : nat) (v : F) :
+  j < n -> fsum O (map (fun s => if Nat.eqb j s then v else 0) (seq 0 n)) = v.
+Proof.
+  intro H. rewrite fsum_indicator_from. cbn [Nat.leb andb].
+  assert (j <? 0 + n = true) as -> by (apply Nat.ltb_lt; lia). reflexivity.
+Qed.
+
+(* ------------------------------------------------------------------ vectors *)
+Lemma fsum_vadd a b : length a = length b -> fsum O (vadd O a b) = fsum O a + fsum O b.
+Proof.
+  revert b; induction a as [|x a IH]; intros [|y b] H; cbn in H; try discriminate; cbn [vadd zip_with].
+  - rewrite fsum_nil. ring.
+  - change (zip_with (fadd O) a b) with (vadd O a b). rewrite !fsum_cons, IH by lia. ring.
+Qed.
+
+Lemma fsum_vscale k a : fsum O (vscale O k a) = k * fsum O a.
+Proof. unfold vscale. rewrite (fsum_map_scale k (fun x => x)), map_id. reflexivity. Qed.
+
+Lemma vadd_length a b : length (vadd O a b) = Nat.min (length a) (length b).
+Proof.
+  unfold vadd. revert b; induction a as [|x a IH]; intros [|y b]; cbn [zip_with length Nat.min]; auto.
+Qed.
+
+Lemma vscale_length k a : length (vscale O k a) = length a.
+Proof. apply map_length. Qed.
+
 End NumLemmas.
